@@ -119,14 +119,29 @@ type event struct {
 	h, r uint64
 }
 
-type recorder struct{ ev []event }
+// recorder: the operator's network / timer / storage as seen by the harness. `fault` injects ONE failure of the operator's own
+// network layer into the next Broadcast call: "a" = the message leaves the node, then Broadcast returns an error; "b" = Broadcast
+// returns an error without sending.
+type recorder struct {
+	ev    []event
+	fault string
+}
+
+const injectedNetError = "injected network fault"
 
 func (rc *recorder) Broadcast(m *spectypes.SSVMessage) error {
 	sm := &specqbft.SignedMessage{}
 	if err := sm.Decode(m.Data); err != nil {
 		panic("harness: cannot decode own broadcast: " + err.Error())
 	}
-	rc.ev = append(rc.ev, event{kind: "b", msg: sm})
+	f := rc.fault
+	rc.fault = ""
+	if f != "b" {
+		rc.ev = append(rc.ev, event{kind: "b", msg: sm})
+	}
+	if f != "" {
+		return fmt.Errorf(injectedNetError)
+	}
 	return nil
 }
 
@@ -217,6 +232,7 @@ type Case struct {
 	removedMsgs  []removedMsg
 	roundLowered bool
 	c02          bool // evaluate the C02 certificate oracle after every controller op
+	nf           string // network fault ("a" | "b") to inject into the next op's broadcast
 	role         int  // 2 = controller of the second duty role of a multi-node schedule (crossrole.go)
 	roundBefore  specqbft.Round
 	lastRet      *specqbft.SignedMessage
